@@ -131,6 +131,14 @@ pub fn subs() -> Vec<Box<dyn AnySub>> {
             strat: || (plan(PlanOpts::default()), mutation()).prop_map(|(plan, mutation)| Mutated { plan, mutation }).boxed(),
             check: check_primed_mutated,
         }),
+        // ... nor a request that is in flight on the same thread at the same time (each suspended in its key lookup)
+        Box::new(Sub {
+            name: "original-and-edited-twin-in-flight-together",
+            quick: 12_000,
+            thorough: 200_000,
+            strat: || (plan(PlanOpts { rich_reqs: false, ..PlanOpts::default() }), mutation(), proptest::collection::vec(0u8..4, 1..10), 1u8..4).prop_map(|(plan, mutation, order, pending)| InFlight { m: Mutated { plan, mutation }, order, pending }).boxed(),
+            check: check_in_flight,
+        }),
         Box::new(Sub {
             name: "blind",
             quick: 10_000,
@@ -516,6 +524,60 @@ pub fn check_mutated(mc: &Mutated, cc: &mut CaseCtx) -> CheckResult {
         return Ok(());
     };
     soundness(&case, label(&mc.mutation), cc)
+}
+
+#[derive(Clone, Debug, Serialize, Deserialize)]
+pub struct InFlight {
+    pub m: Mutated,
+    /// poll order (cycled) over [original, edited twin, original again]
+    pub order: Vec<u8>,
+    /// every key lookup suspends this many times
+    pub pending: u8,
+}
+
+pub fn check_in_flight(f: &InFlight, cc: &mut CaseCtx) -> CheckResult {
+    let mut plan = f.m.plan.clone();
+    plan.cfg.reqs = Reqs::default();
+    let Ok(built) = plan.build() else {
+        cc.class("unsignable");
+        return Ok(());
+    };
+    let Some(twin) = apply(&f.m.mutation, &plan, &built) else {
+        cc.class("mutation-not-applicable");
+        return Ok(());
+    };
+    let mut cases = vec![built.case.clone(), twin, built.case.clone()];
+    for c in cases.iter_mut() {
+        c.prov.call_pending = f.pending;
+    }
+    let outs = match exec::run_interleaved(&cases, &f.order) {
+        Ok(o) => o,
+        Err(m) if m.starts_with("UNREPRESENTABLE") => return Ok(()),
+        Err(m) => return Err(Failure::new(&format!("panic:{}", panic_site(&m)), format!("validations in flight together panicked: {}", m))),
+    };
+    cc.class(label(&f.m.mutation));
+    let mut decided_by_signature = false;
+    for (i, (c, o)) in cases.iter().zip(outs.iter()).enumerate() {
+        let a = analyze(c);
+        check_total(o)?;
+        if let Verdict::Reject { rank, .. } = a.verdict() {
+            decided_by_signature |= *rank >= R_SCOPE;
+        }
+        check_ok_implies_signature(&a, o).map_err(|e| {
+            // the recorded finding, established causally as in `soundness`
+            if let Some(c2) = escape_plus_in_path(c) {
+                let (a2, o2) = (analyze(&c2), exec::run(&c2));
+                if check_total(&o2).is_ok() && check_ok_implies_signature(&a2, &o2).is_ok() {
+                    return Failure::new(&format!("{}+literal-plus-in-path", e.sig), e.msg);
+                }
+            }
+            Failure::new(&format!("{}:in-flight-together", e.sig), format!("{} [validation {} of 3 in flight on one thread, poll order {:?}]", e.msg, i, f.order))
+        })?;
+    }
+    if decided_by_signature {
+        cc.nontrivial(digest_of(&[&cases[1].req.digest().to_le_bytes(), format!("{:?}{}", f.order, f.pending).as_bytes()]));
+    }
+    Ok(())
 }
 
 /// The unedited request first (same thread, immediately before), then its edited twin.
